@@ -307,6 +307,18 @@ Theorem C11_scope_example :
 Proof. exact scope_raises_and_restores. Qed.
 Print Assumptions C11_scope_example.
 
+(** "by name and recorded field values": whether a span is matched depends on the values recorded on it so far only, and
+    only grows — a value recorded later that does not match never un-matches the span, with or without an enter in between *)
+Theorem C11_scope_match_sticky : forall (e : envf) (m : meta) (v1 v2 : list (bytes * rval)) (x : lv),
+  span_matches_level e (mk_aspan m v1) x = true -> span_matches_level e (mk_aspan m (v1 ++ v2)) x = true.
+Proof. exact span_matches_mono. Qed.
+Print Assumptions C11_scope_match_sticky.
+
+Theorem C11_scope_record_order : forall (c : cs_match) (v1 v2 : list (bytes * rval)),
+  record_vals v2 (sm_of v1 c) = sm_of (v1 ++ v2) c.
+Proof. exact record_order_irrelevant. Qed.
+Print Assumptions C11_scope_record_order.
+
 (** "and for that span itself": a span whose callsite was registered is enabled when a directive that matches its
     metadata admits its level.  The converse fails (F12). *)
 Theorem C11_scope_span_itself : forall (e : envf) (evs : list fev) (tid cs : N) (m : meta),
